@@ -84,3 +84,6 @@ func VerifVersion(f *GGML) uint32 {
 	}
 	return 0
 }
+
+// VerifFileTypeString exposes fileType(t).String() (Tensor.Type() is this on the tensor kind).
+func VerifFileTypeString(t uint32) string { return fileType(t).String() }
